@@ -53,7 +53,10 @@ func (t *Topology) Update(p *Peer) error {
 func (t *Topology) Delete(p *Peer) error {
 	t.Lock()
 	defer t.Unlock()
-	l := t.m[p.Meta.Role]
+	l, ok := t.m[p.Meta.Role]
+	if !ok {
+		return nil
+	}
 	l.Delete(p)
 
 	return nil
@@ -72,6 +75,8 @@ func (t *Topology) Get(kind string) *PeerList {
 func (t *Topology) Each(n int, l *PeerList) *PeerList {
 	var p PeerList
 
+	t.Lock()
+	defer t.Unlock()
 	for _, list := range t.m {
 		p.Append(list.Exclude(l).Shuffle().Take(n))
 	}
